@@ -109,6 +109,16 @@ def step (d : D) : List String → D × String
         st.modNode n (fun nd => { nd with ifaces := nd.ifaces.modify i (fun x => { x with peer := some (m, j) }) })
       ({ d with net := setPeer (setPeer d.net n1 i1 n2 i2) n2 i2 n1 i1 }, "ok")
     | _, _, _, _ => (d, "bad-op")
+  | ["unlink", n, i] =>
+    -- `Network.remove_link`: both endpoints lose the link and are disabled (`disconnect_link`)
+    match n.toNat?, i.toNat? with
+    | some n, some i =>
+      let off (st : St) (a b : Nat) : St :=
+        st.modNode a (fun nd => { nd with ifaces := nd.ifaces.modify b (fun x => { x with peer := none, enabled := false }) })
+      match (d.net.iface? n i).bind (·.peer) with
+      | some (m, j) => ({ d with net := off (off d.net n i) m j }, "ok")
+      | none => ({ d with net := off d.net n i }, "ok")
+    | _, _ => (d, "bad-op")
   | ["route", n, a, m, nh, me] =>
     match n.toNat?, parseRoute a m nh me with
     | some n, some r => ({ d with net := d.net.modNode n (fun nd => { nd with routes := addRoute nd.routes r }) }, "ok")
